@@ -6,6 +6,7 @@ package main
 
 import (
 	"bytes"
+	"io"
 	"compress/gzip"
 	"context"
 	"fmt"
@@ -173,8 +174,23 @@ func c18zRun(o *out, input string) {
 	if err != nil {
 		panic(err)
 	}
+	// a handler may return errors that are not gRPC statuses, io.EOF and context.Canceled among them
+	var herr error
+	switch f[1] {
+	case "herr-eof":
+		herr = io.EOF
+	case "herr-canceled":
+		herr = context.Canceled
+	case "herr-plain":
+		herr = fmt.Errorf("plain error")
+	case "herr-status":
+		herr = status.Error(codes.DataLoss, "lost")
+	}
 	impl := &dynImpl{
 		Unary: func(ctx context.Context, method string, req proto.Message, out protoreflect.MessageDescriptor) (proto.Message, error) {
+			if herr != nil {
+				return nil, herr
+			}
 			return dynamicpb.NewMessage(out), nil
 		},
 		Stream: func(method string, in, out protoreflect.MessageDescriptor, ss grpc.ServerStream) error {
@@ -182,6 +198,9 @@ func c18zRun(o *out, input string) {
 				if err := ss.RecvMsg(dynamicpb.NewMessage(in)); err != nil {
 					break
 				}
+			}
+			if herr != nil {
+				return herr
 			}
 			return ss.SendMsg(dynamicpb.NewMessage(out))
 		},
@@ -228,11 +247,11 @@ func c18zRun(o *out, input string) {
 	if len(ev) == 0 {
 		ev = []string{"-"}
 	}
-	o.emit(input, strings.Join(ev, ","))
+	o.emit(input, fmt.Sprintf("%s %d", strings.Join(ev, ","), w.Code))
 }
 
 func c18tGen(o *out) {
-	for _, v := range []string{"okgzip", "badgzip", "emptygzip", "truncgzip", "shortgzip", "unknownenc"} {
+	for _, v := range []string{"okgzip", "badgzip", "emptygzip", "truncgzip", "shortgzip", "unknownenc", "herr-eof", "herr-canceled", "herr-plain", "herr-status"} {
 		for _, sh := range []string{"un", "up"} {
 			o.count("C18Z")
 			c18zRun(o, "C18Z "+v+" "+sh)
